@@ -80,7 +80,7 @@ func fsrBody(idType byte, idBytes []byte) []byte {
 	for i := range b {
 		b[i] = byte(0x11 * (i%15 + 1))
 	}
-	b[1] &= 0xF3  // reserved bits of the owner LUN byte
+	b[1] &= 0xF3 // reserved bits of the owner LUN byte
 	b[15] = 0x80
 	b[18] = 0x00
 	b[25] &= 0x07 // reserved bits of the analog characteristic flags
